@@ -105,6 +105,9 @@ class Evaluator:
 
     def e_Attribute(self, e, env):
         base = self.expr(e.value, env)
+        # a self attribute stored earlier on this path reads back as the stored value
+        if base == ("param", "self") and ("self." + e.attr) in env:
+            return env["self." + e.attr]
         if base[0] == "ref":
             return T.ref(self.prog.canonical(f"{base[1]}.{e.attr}"))
         return T.attr(base, e.attr)
@@ -247,6 +250,8 @@ class Evaluator:
             base = self.expr(tgt.value, env)
             if events is not None:
                 events.append(("setattr", base, tgt.attr, val))
+            if base == ("param", "self"):
+                env["self." + tgt.attr] = val
         elif isinstance(tgt, ast.Subscript):
             base = self.expr(tgt.value, env)
             idx = self.expr(tgt.slice, env)
